@@ -607,6 +607,11 @@ func runC13Inner(c *C13Case) (res c13Result) { //nolint:cyclop,gocyclo,maintidx
 				}
 			}
 			rmu.Unlock()
+			for peer := range relayed {
+				if _, ok := byPeer[peer]; !ok {
+					byPeer[peer] = nil
+				}
+			}
 			for peer, r := range byPeer {
 				exp := relayed[peer]
 				j := 0
@@ -621,7 +626,13 @@ func runC13Inner(c *C13Case) (res c13Result) { //nolint:cyclop,gocyclo,maintidx
 					}
 					j++
 				}
-				if queued <= 1000 && len(r) != len(exp) && !closed {
+				selfClosed := false
+				select {
+				case <-readerDone: // the client closed the allocation itself (ChannelBind answered 400)
+					selfClosed = true
+				default:
+				}
+				if queued <= 1000 && len(r) != len(exp) && !closed && !selfClosed {
 					fail("read-lost", "ReadFrom returned %d payloads from %s, the server relayed %d (fewer than the queue holds)", len(r), peer, len(exp))
 				}
 			}
